@@ -68,6 +68,9 @@ func (PoolH) Gen(prop string, seed uint64, tier string) *hx.Case {
 	}
 	cfg.Now0 = 1893456000 + int64(seed%3000)*86400 // 2030-01-01 + up to ~8 years: beyond the real clock the package was initialised with
 	cfg.NotFullRBF = r.Chance(0.3)
+	if r.Chance(0.25) {
+		cfg.ChildFirstP = []float64{0.2, 0.6, 1}[r.Intn(3)]
+	}
 	cfg.ExpireDays = uint(r.Range(1, 14))
 	cfg.RejectRecCnt = uint16([]int{100, 150, 1000}[r.Intn(3)])
 	cfg.FeePerByte = []float64{0, 1, 5}[r.Intn(3)]
@@ -837,7 +840,7 @@ func (PoolH) Run(t *testing.T, c *hx.Case) *hx.Outcome {
 	p.m = &ledger.Miner{L: p.l, W: ledger.NewWallet(walletSeed, walletKeys), R: hx.NewRng(1)}
 	registerPrefixScripts(p.m.W, cfg.Testnet)
 
-	scfg := simrt.Config{Seed: cfg.SchedSeed, YieldP: cfg.YieldP, TimerP: cfg.TimerP, MaxConsec: cfg.MaxConsec, StepBudget: 60_000_000, PCT: cfg.PCT, PCTSteps: cfg.PCTSteps}
+	scfg := simrt.Config{Seed: cfg.SchedSeed, YieldP: cfg.YieldP, TimerP: cfg.TimerP, MaxConsec: cfg.MaxConsec, StepBudget: 60_000_000, PCT: cfg.PCT, PCTSteps: cfg.PCTSteps, ChildFirstP: cfg.ChildFirstP}
 	res := simrt.Run(scfg, func() {
 		simrt.Sleep(time.Unix(cfg.Now0, 0).Sub(time.Now()))
 		// configuration as client/init.go + common.Reset() do it
